@@ -93,6 +93,18 @@ for name, (der, fields) in EXP_SHAPES.items():
         warn(f"{name}: fields/variants {got['fields']} differ from the modelled {fields} (derived Eq/Hash/Ord depend on them and on their order)", ['C19', 'C11'])
 if d.get('manual_impls') is not None and d.get('manual_impls') != ['PartialEq<S> for QualifierKey', 'PartialOrd<S> for QualifierKey']:
     warn(f"hand-written comparison/hash impls are {d.get('manual_impls')}; the model knows PartialEq<S> and PartialOrd<S> for QualifierKey only", ['C19', 'C11'])
+hc = d.get('hook_calls')
+if hc is not None and hc != {'finish_in_build': 1, 'finish_elsewhere': 0, 'from_str_in_parse': 1, 'build_calls_in_parse': 1}:
+    warn(f"calls of the user hooks in the source are {hc}; the model has one finish() call in build(), one T::from_str and one build() call in the parser", ['C14'])
+if d.get('state_sites'):
+    # the model is a pure function of its arguments; state that survives a call breaks the tie for everything anchored in that file
+    import os as _os
+    try:
+        props = [json.loads(l) for l in open(_os.path.join(_os.path.dirname(_os.path.abspath(__file__)), '..', 'properties.jsonl'))]
+    except Exception: props = []
+    for f, text in d['state_sites']:
+        aff = sorted(p['id'] for p in props if any(x.endswith('/' + f) or x.endswith(f) for x in (p.get('anchors') or {}).get('files', []))) or ['*']
+        warn(f"{f}: state that survives a call ({text}); the model is a pure function of the arguments", aff)
 if d.get('checksum_key') != ['checksum']: warn(f"Checksum::KEY is {d.get('checksum_key')}", ['C12', 'C04'])
 exp_typed = ['RepositoryUrl', 'DownloadUrl', 'VcsUrl', 'FileName', 'Platform', 'Classifier', 'Type']
 tk = d.get('typed_keys') or []
